@@ -124,3 +124,28 @@ impl<R: AsyncRead + Unpin> AsyncReader<R> {
     }
 }
 
+
+// Verification hooks (add-only, compiled only with `--cfg minicbor_verif`): construct a reader in
+// an arbitrary internal state and observe that state, so that a single poll can be checked from
+// every state instead of exploring whole poll/drop histories.
+#[cfg(minicbor_verif)]
+#[doc(hidden)]
+impl<R> AsyncReader<R> {
+    /// `read_val == false`: `State::ReadLen(len_buf, off as u8)`; `true`: `State::ReadVal(off)`.
+    pub fn __verif_from_parts(reader: R, buffer: Vec<u8>, max_len: usize, read_val: bool, len_buf: [u8; 4], off: usize) -> Self {
+        let state = if read_val { State::ReadVal(off) } else { State::ReadLen(len_buf, off as u8) };
+        Self { reader, buffer, max_len, state }
+    }
+
+    /// `(is ReadVal, length prefix bytes, offset)`.
+    pub fn __verif_state(&self) -> (bool, [u8; 4], usize) {
+        match self.state {
+            State::ReadLen(b, o) => (false, b, usize::from(o)),
+            State::ReadVal(o) => (true, [0; 4], o)
+        }
+    }
+
+    pub fn __verif_buffer(&self) -> &[u8] {
+        &self.buffer
+    }
+}
